@@ -31,6 +31,9 @@ CLAIMED["C03"] = ("Every PDU decoder runs on ALL right-length bit strings (symbo
 CLAIMED["C04"] = ("For every received slot-type / EMB word and every received data-header, PI-header, short-LC, confirmed rate-x block and 12-octet HRNP frame the indicator is "
                   "compared with an independent truth predicate over the received bits; library-generated PDUs parse back with the indicator true. Detection follows with C05's "
                   "burst/weight corollaries. Two families of genuine deviations are listed as known findings (zero check field means generate; check evaluated on normalised fields).", "6/C04")
+CLAIMED["C01"] = ("Data bursts: payload = every object the PDU decoders produce from symbolic bits (all field values of all supported kinds), colour code symbolic, "
+                  "assembled as the library's generator does, then as_bits -> from_bits -> as_bits / as_bytes -> from_bytes: data type, colour code, sync, every payload "
+                  "field and all 264 bits equal. Voice bursts: all 2^216 vocoder payloads around each voice sync and around valid EMB with any 32 embedded bits.", "6/C01")
 NOT_YET = {}
 props = [json.loads(l) for l in open(os.path.join(V, "properties.jsonl"))]
 checks = []
